@@ -624,10 +624,13 @@ class ChunkStore:
             Dask array of objects indicating success of transfer of each chunk
             (None indicates success, otherwise there is an exception object)
         """
+        # The final name must differ between stores and between input arrays, as dask
+        # merges tasks with identical names when several puts end up in the same graph
+        token = da.core.tokenize(self, array.name)
         return da.map_blocks(
             _put_map_blocks,
             array,
-            name=f'store-{array_name}-{offset}',
+            name=f'store-{array_name}-{offset}-{token}',
             dtype=object,
             chunks=array.ndim * (1,),
             meta=np.empty(shape=(0,) * array.ndim, dtype=object),
